@@ -174,6 +174,15 @@ def gen_pair(rng, hostile=False, prof=PROF):
     placeholder | zoo | unrelated | contains_hostile"""
     if hostile and rng.random() < 0.08:
         return gen_contains_case(rng)
+    if hostile and rng.random() < 0.05:
+        # placeholders aimed at the positions only from_native could serve (where a schema cannot hold a ...)
+        from .spec import mk
+        from .gen_value import arbitrary
+        spec = rng.choice((mk("dict") | {"keys": None}, mk("dict") | {"keys": [], "relaxed": True}, mk("list", form="bare"),
+                           mk("list", form="typed", type=mk("any")), mk("any"),
+                           mk("list", form="bare", len=("min", 2)), mk("alias", name="A", target=mk("dict") | {"keys": None})))
+        base = rng.choice(([1, "a", [2]], {"w": 1, "q": [1, 2]}, [[1, 2, 3]], {"k": {"n": 1}}, [1, 2, 3, 4]))
+        return spec, rng.choice(placeholders(base, rng)), "placeholder"
     for _ in range(20):
         spec = gen_spec(rng, prof)
         try:
